@@ -368,7 +368,7 @@ func runSeq(c *Ctx, fl seqFlavour) {
 	allowDisclose := g.Chance(2, 3)
 	metaKill := fl == seqC05 || fl == seqC18
 	rc := &router.RealmConfig{URI: "r1", StrictURI: strict, AllowDisclose: allowDisclose, AnonymousAuth: true, EnableMetaKill: metaKill,
-		MetaStrict: fl == seqC18 && g.Chance(1, 3),
+		MetaStrict:     fl == seqC18 && g.Chance(1, 3),
 		Authenticators: []auth.Authenticator{&StaticAuth{Roles: seqRoles}}}
 	var authz *TableAuthz
 	if fl == seqC10 {
